@@ -252,7 +252,10 @@ void reb_rotation_to_orbital(struct reb_rotation q, double* Omega, double* inc, 
     double bp = q.iz;
     double cp = q.ix;
     double dp = q.iy;
-    *inc = acos(2.0*(ap*ap+bp*bp) - 1.0);
+    double cosinc = 2.0*(ap*ap+bp*bp) - 1.0;
+    if (cosinc > 1.0) cosinc = 1.0;    // rounding error would make acos return NaN
+    if (cosinc < -1.0) cosinc = -1.0;
+    *inc = acos(cosinc);
     int safe1 =  (fabs(*inc) > MIN_INC);
     int safe2 =  (fabs(*inc - M_PI) > MIN_INC);
 
@@ -268,7 +271,7 @@ void reb_rotation_to_orbital(struct reb_rotation q, double* Omega, double* inc, 
             *omega = 2.0 * half_sum;
         }else{
             double half_diff = atan2(dp, cp);
-            *omega = 2.0 * half_diff;
+            *omega = -2.0 * half_diff;  // half_diff = (Omega-omega)/2 and Omega = 0
         }
     }
     if (*omega < 0){
